@@ -83,3 +83,26 @@ pub fn close_fds_pointing_to(path: &std::path::Path, keep: &[i32]) -> usize {
     }
     closed
 }
+
+/// Like `close_fds_pointing_to`, for every read-write descriptor whose target (even deleted or
+/// renamed since) lies under `dir`.
+pub fn close_rdwr_fds_under(dir: &std::path::Path) -> usize {
+    let mut closed = 0;
+    let entries: Vec<i32> = match std::fs::read_dir("/proc/self/fd") {
+        Ok(d) => d.filter_map(|e| e.ok()).filter_map(|e| e.file_name().to_str().and_then(|s| s.parse::<i32>().ok())).collect(),
+        Err(_) => return 0,
+    };
+    for fd in entries {
+        if fd <= 2 {
+            continue;
+        }
+        if let Ok(target) = std::fs::read_link(format!("/proc/self/fd/{}", fd)) {
+            let flags = unsafe { libc::fcntl(fd, libc::F_GETFL) };
+            if target.starts_with(dir) && flags >= 0 && (flags & libc::O_ACCMODE) == libc::O_RDWR {
+                unsafe { libc::close(fd) };
+                closed += 1;
+            }
+        }
+    }
+    closed
+}
